@@ -827,6 +827,9 @@ func init() {
 		},
 		CaseTimeout: 300 * time.Second,
 		Procs: func(tier string, shard int) int {
+			if tier == "thorough" {
+				return 4 // 8 cases in flight per worker, a fifth of them busy-polling (read delay 0)
+			}
 			return []int{2, 4}[shard%2]
 		},
 	})
